@@ -1,10 +1,10 @@
 package main
 
 import (
-	"os"
 	"encoding/json"
 	"errors"
 	"fmt"
+	"os"
 	"reflect"
 	"strings"
 
@@ -161,6 +161,7 @@ func runUMFull(c UCase) (Case, unmarshaler.UnmarshaledError) {
 	}
 	umJSON := unmarshaler.NewJSON(w.res, w.options()...)
 	umDD := unmarshaler.New(w.res, dec, w.options()...)
+	_ = unmarshaler.NewJSON(w.res, w.decoyOptions()...) // must not disturb the two above
 	var res unmarshaler.UnmarshaledError
 	var err error
 	panicked := ""
